@@ -104,6 +104,33 @@ def AssetProblem.withIntervalRows (A : AssetProblem) (Is : List (List Nat)) (B :
     AssetProblem :=
   { A with rows := Is.flatMap fun I => liftRows A I (B I) }
 
+/-- level row "full" of a storage that starts with `start_level` at position `a` of its grid and pins `end_level`
+    at position `a + m - 1`: row `i` of the piece `[a, a+m)`, on the variables of the unsplit storage -/
+def Storage.restartUpper (p : StorageP) (g : Grid) (a m i : Nat) : Row :=
+  { coeffs := Storage.levelCoeffs p g.T a (a + i),
+    rhs := (if i + 1 = m then p.endLevel else p.size) - p.startLevel - Storage.blockInfl p g a (a + i), kind := .U }
+
+/-- level row "empty" of the same piece -/
+def Storage.restartLower (p : StorageP) (g : Grid) (a m i : Nat) : Row :=
+  { coeffs := Storage.levelCoeffs p g.T a (a + i),
+    rhs := (if i + 1 = m then p.endLevel else 0) - p.startLevel - Storage.blockInfl p g a (a + i), kind := .L }
+
+/-- what the level rows sum: the level increment of step `j` caused by the dispatch `y` (`n` steps; two-variable form:
+    charge variable `j`, discharge variable `n + j`) -/
+def Storage.levelInc (p : StorageP) (n : Nat) (y : Vec) (j : Nat) : Rat :=
+  if Storage.sep p then -1 * p.effIn * y j + -1 * y (n + j) else -1 * y j
+
+/-- `cost_store * dt * discount` of step `i` -/
+def Storage.storeRate (p : StorageP) (g : Grid) (i : Nat) : Rat := p.costStore * Storage.dtAt g i * Storage.dfAt g i
+
+/-- storage costs per unit of level over all steps from position `k` on -/
+def Storage.storeAfter (p : StorageP) (g : Grid) (k : Nat) : Rat :=
+  sumTo (Storage.storeRate p g) g.T - sumTo (Storage.storeRate p g) k
+
+/-- first position of the asset grid that belongs to the interval (0 if none), and the position after the last -/
+def Grid.segStart (g : Grid) (I : List Nat) : Nat := (g.posIn I).head?.getD 0
+def Grid.segEnd (g : Grid) (I : List Nat) : Nat := g.segStart I + (g.posIn I).length
+
 /-- **restart form**: a contract / transport is left as it is; a storage keeps variables, costs, bounds and mapping
     and gets, for every interval, the level rows of the storage built in that interval (level restarting at
     `start_level`, `end_level` pinned at the interval's last step) -/
